@@ -912,6 +912,18 @@ func (g *c10Gen) closedL(d int) *c10E {
 	return lForce(g.closedL(d - 1))
 }
 
+// every `let` of the program was folded into a constant: the optimized AST does not start with a let any more
+// (a definition that fails while it is folded - c.eval(), c.append(x), c.reverse() on a constant with a failing
+// element - stays a run-time let, which is outside the model, even when it creates no list object of its own)
+func c10AllDefsFolded(fg *value.FunctionGenerator, p *c10Prog) bool {
+	ast, err := fg.CreateAst(p.Src, fg.Identifier().AddArgs(p.Args, nil))
+	if err != nil {
+		return false
+	}
+	_, isLet := ast.(*parser2.Let)
+	return !isLet
+}
+
 func c10RandomProg(r *Rng, n int) *c10Prog {
 	for {
 		g := &c10Gen{r: r, guarded: r.Chance(0.3)}
@@ -953,7 +965,7 @@ func c10RandomProg(r *Rng, n int) *c10Prog {
 			// a definition over a failing constant may fail to fold (e.g. c1.append(4) with c1 failing): it would
 			// stay a run-time let, which is outside the model - such programs are dropped (decided on the real code)
 			s := c10NewSession(true)
-			if fn, err := s.generate(p); err == nil && len(fn.lists) == p.NewObjs {
+			if fn, err := s.generate(p); err == nil && len(fn.lists) == p.NewObjs && c10AllDefsFolded(s.fg, p) {
 				return p
 			}
 		}
